@@ -78,38 +78,125 @@ fn heap_sub(n: usize) {
     LIVE.fetch_sub(n as i64, Ordering::Relaxed);
 }
 
+/// Every block of alignment <= 16 carries a 16-byte header with its requested size (and a check word). `dealloc` and
+/// `realloc` compare the size the caller claims with the recorded one: a mismatch is undefined behaviour of the caller
+/// (e.g. `Vec::from_raw_parts` with a wrong capacity) that the system allocator silently tolerates.
+const HDR: usize = 16;
+const MAGIC: usize = 0x5ca1_ab1e_0dd5_1ced;
+
+#[inline]
+unsafe fn header_layout(size: usize) -> Layout {
+    Layout::from_size_align_unchecked(size + HDR, HDR)
+}
+
+#[inline]
+unsafe fn write_header(base: *mut u8, size: usize) -> *mut u8 {
+    let h = base.cast::<usize>();
+    h.write(size);
+    h.add(1).write(size ^ MAGIC);
+    base.add(HDR)
+}
+
+/// Returns the base pointer and the recorded size; reports a caller whose claimed size differs.
+#[inline]
+unsafe fn check_header(ptr: *mut u8, claimed: usize) -> (*mut u8, usize) {
+    let base = ptr.sub(HDR);
+    let h = base.cast::<usize>();
+    let size = h.read();
+    if h.add(1).read() != size ^ MAGIC {
+        report_layout_mismatch(usize::MAX, claimed);
+    }
+    if size != claimed {
+        report_layout_mismatch(size, claimed);
+    }
+    (base, size)
+}
+
 unsafe impl GlobalAlloc for ReportingAlloc {
     unsafe fn alloc(&self, layout: Layout) -> *mut u8 {
-        let p = System.alloc(layout);
-        if p.is_null() && layout.size() > 0 {
+        if layout.align() > HDR {
+            let p = System.alloc(layout);
+            if p.is_null() && layout.size() > 0 {
+                report_oom(layout.size());
+            }
+            heap_add(layout.size());
+            return p;
+        }
+        let base = System.alloc(header_layout(layout.size()));
+        if base.is_null() {
             report_oom(layout.size());
         }
         heap_add(layout.size());
-        p
+        write_header(base, layout.size())
     }
     unsafe fn dealloc(&self, ptr: *mut u8, layout: Layout) {
         heap_sub(layout.size());
-        System.dealloc(ptr, layout);
+        if layout.align() > HDR {
+            System.dealloc(ptr, layout);
+            return;
+        }
+        let (base, size) = check_header(ptr, layout.size());
+        System.dealloc(base, header_layout(size));
     }
     unsafe fn alloc_zeroed(&self, layout: Layout) -> *mut u8 {
-        let p = System.alloc_zeroed(layout);
-        if p.is_null() && layout.size() > 0 {
+        if layout.align() > HDR {
+            let p = System.alloc_zeroed(layout);
+            if p.is_null() && layout.size() > 0 {
+                report_oom(layout.size());
+            }
+            heap_add(layout.size());
+            return p;
+        }
+        let base = System.alloc_zeroed(header_layout(layout.size()));
+        if base.is_null() {
             report_oom(layout.size());
         }
         heap_add(layout.size());
-        p
+        write_header(base, layout.size())
     }
     unsafe fn realloc(&self, ptr: *mut u8, layout: Layout, new_size: usize) -> *mut u8 {
-        let p = System.realloc(ptr, layout, new_size);
-        if p.is_null() && new_size > 0 {
-            report_oom(new_size);
-        }
         if new_size >= layout.size() {
             heap_add(new_size - layout.size());
         } else {
             heap_sub(layout.size() - new_size);
         }
-        p
+        if layout.align() > HDR {
+            let p = System.realloc(ptr, layout, new_size);
+            if p.is_null() && new_size > 0 {
+                report_oom(new_size);
+            }
+            return p;
+        }
+        let (base, size) = check_header(ptr, layout.size());
+        let nb = System.realloc(base, header_layout(size), new_size + HDR);
+        if nb.is_null() {
+            report_oom(new_size);
+        }
+        write_header(nb, new_size)
+    }
+}
+
+fn report_layout_mismatch(recorded: usize, claimed: usize) -> ! {
+    let mut b = FixedBuf { buf: [0u8; 160], n: 0 };
+    b.put(b"\nLAYOUT case=");
+    b.num(CUR_CASE.load(Ordering::Relaxed));
+    b.put(b" recorded=");
+    b.num(recorded as u64);
+    b.put(b" claimed=");
+    b.num(claimed as u64);
+    b.put(b" label=");
+    let lp = SLOT0_LABEL_PTR.load(Ordering::Relaxed);
+    let ll = SLOT0_LABEL_LEN.load(Ordering::Relaxed);
+    if lp != 0 && ll < 64 {
+        // SAFETY: points into a &'static str
+        let s = unsafe { std::slice::from_raw_parts(lp as *const u8, ll) };
+        b.put(s);
+    }
+    b.put(b"\n");
+    // SAFETY: raw write of a stack buffer; then abort
+    unsafe {
+        write(LOG_FD.load(Ordering::Relaxed), b.buf.as_ptr(), b.n);
+        abort();
     }
 }
 
